@@ -14,8 +14,8 @@ listing under test, and the second listing, must each show what a fresh listing 
 taken before any second object existed.  Signatures of this dimension end in |second-object=<same-file|other-family>.
 
 Oracle (the property statement):
-  invariant   in every reached state the reported index, time, step and every table (values, row and column
-              names) equal those of a genuinely freshly opened listing with `index = i` assigned directly
+  invariant   in every reached state the reported index, time, step, the SET of tables offered (table_names and
+              the table attributes) and every table (values, row and column names) equal those of a genuinely freshly opened listing with `index = i` assigned directly
               (k reference observations per search, taken once);
   refinement  on every transition the resulting index is in the set ref/navmodel.py accepts (nearest result
               set with ties as a set); next/prev return 'moved' and never pass either end; no exception;
@@ -36,7 +36,9 @@ RULE = ('per (listing, truncation to k result times): breadth-first search to cl
         'listing over the alphabet {first, last, next, prev, index=i for every i in [-k, k-1], time=t and step=s '
         'for every exact value, every midpoint of consecutive values and its two floating-point neighbours, one '
         'value below the first and one above the last, history(single item), history(one item in each of the first '
-        'two tables), history(one item per table)}; a state is the whole reader object (a digest of every attribute '
+        'two tables), history(one item per table), history(a column that does not exist - may fail loudly), look(rows: read '
+        'first/middle/last row of every table by name, by row number and by negative row number, and two columns, through '
+        'the table accessors), look(reductions property)}; a state is the whole reader object (a digest of every attribute '
         'including which arrays are shared between attributes - hence index, time, step, all table data) plus the file '
         'offset; every (state, action) pair is one transition executed on the real '
         'reader and compared with the index model and with a freshly opened listing positioned directly. Second-object '
@@ -56,11 +58,14 @@ ASSUMPTIONS = ['index= is explored for the arguments a Python sequence of k resu
                'no interference is judged by effect only: a second live listing (same file or another simulator family) may share '
                'anything with the listing under test as long as both keep showing what their fresh snapshots showed; at most one '
                'second object per search path, never closed',
+               'looking is an action, not part of the silent observation: what look(rows) reads through the accessors is compared '
+               'with the same reads on a fresh listing at that index; a history() request for a column that does not exist may '
+               'raise, but like every action it must leave the reader showing what a fresh listing at its index shows',
                'history return values are not judged here (C06 does); only that the call returns and leaves the '
                'reader showing what it showed',
                'non-termination = more than 20 x lines x (result sets + 2) readline calls in one library call, or '
                'more than 4 x lines + 1000 consecutive reads at end of file']
-BOUNDS = {'quick': {'second_object_searches': 'every file cut to 2 result times; one second object per path', 'state_cap': '20 x result times + 60 states per search (never reached on the unchanged tree)', 'files': 'shipped listings with >= 2 result times and size < 300 kB, plus those < 500 kB that mix short and full result sets',
+BOUNDS = {'quick': {'second_object_searches': 'every file cut to 2 result times; one second object per path', 'state_cap': '20 x result times + 60 states per search (never reached on the unchanged tree)', 'files': 'shipped listings with >= 2 result times and size < 300 kB, plus those < 500 kB that mix short and full result sets or whose set of printed tables changes between result times',
                     'truncations': 'all k in 1..N for N <= 6, otherwise k in {1, 2, N}', 'depth': 'to closure'},
           'thorough': {'second_object_searches': 'every file cut to 2 and to 3 result times; one second object per path',
                        'state_cap': '20 x result times + 60 states per search (never reached on the unchanged tree)',
@@ -99,9 +104,10 @@ def units(tier):
         if n < 2:
             continue
         # quick: files < 300 kB, plus (< 500 kB) the listings that mix short and full result sets - the only
-        # ones where time= / step= can confuse the two kinds of result set (AUTOUGH2/3 is the only shipped one)
+        # ones where time= / step= can confuse the two kinds of result set (AUTOUGH2/3 is the only shipped one) - and
+        # those whose set of printed tables is not the same at every result time (TOUGH2/11: a table at the last only)
         mixed = len(sc.sets) > n
-        if tier == 'quick' and not (size < 300000 or (mixed and size < 500000)):
+        if tier == 'quick' and not (size < 300000 or (size < 500000 and (mixed or listkit.tables_vary(path)))):
             continue
         for k in truncations(n, tier):
             # a search has about 6k states x (10k + 7) actions; large ones are split into shards
@@ -181,7 +187,7 @@ class Ctx(object):
     def references(self):
         """Observation of a genuinely freshly opened listing positioned directly at each index."""
         if self.refs is None:
-            refs = []
+            refs, looks = [], []
             for i in range(self.model.n):
                 lst = listkit.open_listing(self.path)
                 self.sim = lst.simulator
@@ -201,8 +207,10 @@ class Ctx(object):
                                              'index = %d on a freshly opened %s raised %r' % (i, self.seed_name, e))
                 lst._file.disarm()
                 refs.append(listkit.observe(lst, names=True))
+                looks.append(listkit.read_accessors(lst))
                 listkit.close_listing(lst)
             self.refs = refs
+            self.look_refs = looks
         return self.refs
 
     def alphabet(self, tablenames):
@@ -221,6 +229,7 @@ class Ctx(object):
         ops.append(['history', 'single'])
         if len(tablenames) >= 2:
             ops.append(['history', 'all'])
+        ops.append(['look', 'rows'])
         for label in sorted(self.prepare_bystanders()):
             ops.append(['bystander', 'open', label])
         ops.append(['bystander', 'next'])
@@ -248,6 +257,12 @@ class Ctx(object):
             ops.append(['history', 'two'])
         if len(tablenames) >= 2:
             ops.append(['history', 'all'])
+        # a history request for a column that does not exist may fail loudly - and must leave the reader as it was
+        ops.append(['history', 'unknown-column'])
+        # looking is an action too: reading rows and columns through the table accessors, and reading the
+        # 'reductions' property, must not change what the reader shows
+        ops.append(['look', 'rows'])
+        ops.append(['look', 'reductions'])
         return ops
 
 
@@ -277,6 +292,8 @@ def enabled(hist, op):
 
 def history_selection(lst, which):
     names = list(lst._tablenames)
+    if which == 'unknown-column':
+        return (SPEC[names[0]], 0, 'no such column'), names[:1]
     if which == 'single':
         t = lst._table[names[0]]
         return (SPEC[names[0]], 0, t.column_name[0]), names[:1]
@@ -291,7 +308,7 @@ def history_selection(lst, which):
 def accepted(ctx, op, i0):
     """(set of acceptable resulting indices, 'moved' flag or None) from the reference model (memoised)."""
     name = op[0]
-    k = (name, op[1] if len(op) > 1 and name != 'history' else None, i0 if name in ('next', 'prev', 'history') else None)
+    k = (name, op[1] if len(op) > 1 and name != 'history' else None, i0 if name in ('next', 'prev', 'history', 'look') else None)
     hit = ctx.model_cache.get(k)
     if hit is not None:
         return hit
@@ -327,11 +344,12 @@ def apply_op(st, op, judge=True):
     sim = lst.simulator
     name = op[0]
     i0 = int(lst._index)
-    cls = op[2] if len(op) > 2 else (op[1] if name == 'history' else '-')
+    cls = op[2] if len(op) > 2 else (op[1] if name in ('history', 'look') else '-')
     base = 'C07|%s|' % name
     tail = '|%s|%s' % (cls, sim)
     ret = None
     used = None
+    looked = None
     if name == 'bystander':
         v = apply_bystander(st, op, judge)
         if v or not judge:
@@ -358,7 +376,22 @@ def apply_op(st, op, judge=True):
                 lst.step = op[1]
             elif name == 'history':
                 sel, used = history_selection(lst, op[1])
-                lst.history(sel)
+                if op[1] == 'unknown-column':
+                    try:
+                        lst.history(sel)
+                    except listkit.BudgetExceeded:
+                        raise
+                    except (core.CaseTimeout, core.HarnessError):
+                        raise
+                    except Exception:
+                        pass                      # failing loudly on a column that does not exist is fine
+                else:
+                    lst.history(sel)
+            elif name == 'look':
+                if op[1] == 'rows':
+                    looked = listkit.read_accessors(lst)
+                else:
+                    lst.reductions
             else:
                 raise core.HarnessError('unknown op %r' % (op,))
     except listkit.BudgetExceeded as e:
@@ -386,18 +419,29 @@ def apply_op(st, op, judge=True):
     if idx not in acc:
         if name in ('next', 'prev') and idx is not None and not 0 <= idx < m.n:
             clause = 'moves-past-the-end'
-        elif name == 'history':
+        elif name in ('history', 'look'):
             clause = 'changes-the-index'
         else:
             clause = 'wrong-result-set'
         # the cursor arithmetic is the same code for every simulator: no simulator in these signatures
-        out.append((base + clause + (tail if name == 'history' else '|' + cls) + so,
+        out.append((base + clause + (tail if name in ('history', 'look') else '|' + cls) + so,
                     '%r from index %d lands on index %r, the model accepts %s (%s, %d result times, after %r)'
                     % (op, i0, idx, sorted(acc), ctx.key, m.n, st.hist)))
         return out
     if moved is not None and bool(ret) != moved:
         out.append((base + 'return-value|' + cls + so,
                     '%s() from index %d of %d returned %r, expected %r (%s)' % (name, i0, m.n, ret, moved, ctx.key)))
+    if looked is not None:
+        want = ctx.look_refs[idx]
+        bad = sorted(k for k in set(looked) | set(want) if looked.get(k) != want.get(k))
+        if bad:
+            forms = sorted(set(f for _, f in bad))
+            out.append(('C07|look|%s-shows-other-values-than-fresh-listing|%s%s'
+                        % ('row-by-' + forms[0] if forms[0] != 'column' else 'column', sim, so),
+                        'after %r, at index %d, reading %s through the table accessors gives other values than on a '
+                        'freshly opened listing with index = %d (%s, %d result times)'
+                        % (st.hist + [op], idx, ', '.join('%s[%s]' % k for k in bad[:6]), idx, ctx.key, m.n)))
+            return out
     if st.by is not None:
         # a second object is alive: same oracle, signatures of their own (and the second object must still show
         # what its own fresh snapshot shows)
@@ -406,16 +450,11 @@ def apply_op(st, op, judge=True):
     obs = listkit.observe(lst, names=True)
     ref = refs[idx]
     if obs != ref:
-        if obs[1] != ref[1]:
-            part = 'time'
-        elif obs[2] != ref[2]:
-            part = 'step'
-        else:
-            bad = [a[0] for a, b in zip(obs[3], ref[3]) if a != b]
-            part = 'table-' + (bad[0] if bad else 'set')
+        part = _part(obs, ref)
         # every cursor action funnels into the same index setter and table reader: one call site 'navigate'
         # (and no argument class) for what the reader shows afterwards; 'history' is its own call site
-        site = 'history' if name == 'history' else 'navigate'
+        site = ('history' if op[1] != 'unknown-column' else 'history-unknown-column') if name == 'history' else \
+            ('look-' + op[1] if name == 'look' else 'navigate')
         out.append(('C07|%s|shows-other-%s-than-fresh-listing|%s' % (site, part, sim),
                     'after %r the reader at index %d shows %s unlike a freshly opened listing with index = %d '
                     '(%s, %d result times; got %r, fresh %r)'
@@ -434,8 +473,10 @@ def _part(obs, ref):
         return 'time'
     if obs[2] != ref[2]:
         return 'step'
+    if [a[0] for a in obs[3]] != [b[0] for b in ref[3]]:
+        return 'table-set'            # the reader offers other tables than the fresh listing does
     bad = [a[0] for a, b in zip(obs[3], ref[3]) if a != b]
-    return 'table-' + (bad[0] if bad else 'set')
+    return 'table-' + (bad[0] if bad else 'set').replace('(tables offered)', 'set')
 
 
 def apply_bystander(st, op, judge):
@@ -488,7 +529,7 @@ def judge_objects(st, op, idx, sim):
     ctx = st.ctx
     label, b = st.by
     kind = label.split(':')[0]
-    site = 'bystander-' + op[1] if op[0] == 'bystander' else ('history' if op[0] == 'history' else 'navigate')
+    site = 'bystander-' + op[1] if op[0] == 'bystander' else ('history' if op[0] == 'history' else ('look-' + op[1] if op[0] == 'look' else 'navigate'))
     out = []
     obs = listkit.observe(st.lst, names=True)
     ref = ctx.references()[idx]
@@ -588,7 +629,7 @@ def search(rec, ctx, ops, shard, nshards, fresh):
     """Breadth-first search to closure, restoring a state by replaying its history on a fresh listing.
 
     Splitting one search over several workers (shards) without communication: a fixed *discovery relation*
-    D (from the seed: index = j, time = t_j and step = s_j; from every state: the history actions) is followed by every
+    D (from the seed: index = j, time = t_j and step = s_j; from every state: the history and look actions) is followed by every
     shard, so every shard finds by itself every state reachable through D ('public' states).  A public state
     is expanded with the full alphabet by exactly one shard, its owner (state hash mod number of shards).  A
     state a shard reaches only through a non-D action ('private' - none exist on the unchanged tree) is
@@ -602,7 +643,7 @@ def search(rec, ctx, ops, shard, nshards, fresh):
     max_states = (STATE_CAP_PER_RESULT_SET * ctx.model.n + 60) * (12 if ctx.mode == 'by' else 1)
 
     def is_disc(hist, op):
-        if op[0] == 'history':
+        if op[0] in ('history', 'look'):
             return True
         if not hist:
             return (op[0] == 'index' and op[1] >= 0) or (op[0] in ('time', 'step') and op[2] == 'exact')
